@@ -17,7 +17,7 @@ ASM = 'flipjump/assembler/assembler.py'
 
 
 def _branch(repo: Repo, types: Set[str]) -> List[ast.stmt]:
-    rm = inline_pure_temps(repo.func(PRE, 'resolve_macro_aux'))      # a hoisted prefix local reads like the expression it names
+    rm = inline_pure_temps(expand_private_calls(repo, PRE, repo.func(PRE, 'resolve_macro_aux')))      # a hoisted prefix local reads like the expression it names
     chain, _ = _isinstance_chain(rm, 'op')
     b = [body for t, body in chain if t == types]
     if not b:
@@ -288,7 +288,7 @@ def synthetic_families(repo: Repo) -> List[Tuple[str, str, str, ast.AST]]:
     for c in calls(gp):
         if dotted(c.func) == 'Expr' and c.args and isinstance(c.args[0], ast.JoinedStr):
             out.append(('local-label', PRE, fixed_text_of_fstring(c.args[0], repo, PRE), c))
-    rm = inline_pure_temps(repo.func(PRE, 'resolve_macro_aux'))      # a hoisted prefix local reads like the expression it names
+    rm = inline_pure_temps(expand_private_calls(repo, PRE, repo.func(PRE, 'resolve_macro_aux')))      # a hoisted prefix local reads like the expression it names
     for st in ast.walk(rm):
         if isinstance(st, ast.Assign) and norm(st.targets[0]) == 'hygienic_iterator':
             out.append(('rep-iterator', PRE, fixed_text_of_fstring(st.value, repo, PRE), st))
